@@ -294,14 +294,20 @@ Proof.
       cbn in Ha. rewrite aget_aset_other in Ha by auto. eauto. }
     destruct (c_ow cfg); [| |destruct m]; inv Hstep; close; auto.
   - (* PRCacheSet *)
-    destruct Hpc as [Hsrc Hslot]. inv Hstep. close; auto.
-    + intros ri2 r' key e Hn Ha. cbn in Hn. apply nth_error_upd_nth_inv in Hn.
+    destruct Hpc as [Hsrc Hslot].
+    set (st1 := upd_r st ri (fun r => mkR (r_slots r) (aset (o_fp orc q) con (r_cache r)))) in *.
+    assert (Hci : cache_inv st1).
+    { intros ri2 r' key e Hn Ha. cbn in Hn. apply nth_error_upd_nth_inv in Hn.
       destruct Hn as (r0 & Hn0 & [[_ ->]|[_ ->]]); eauto.
-      cbn in Ha. apply aget_aset_inv in Ha. destruct Ha as [[-> ->]|[_ Ha]]; eauto.
-    + intros r' o Hn Ha. cbn in Hn. apply nth_error_upd_nth_inv in Hn.
-      destruct Hn as (r0 & Hn0 & [[_ ->]|[_ ->]]); eauto.
-    + intros ri2 r' t2 o Hne Hn Ha. cbn in Hn. apply nth_error_upd_nth_inv in Hn.
-      destruct Hn as (r0 & Hn0 & [[_ ->]|[_ ->]]); eauto.
+      cbn in Ha. apply aget_aset_inv in Ha. destruct Ha as [[-> ->]|[_ Ha]]; eauto. }
+    assert (Hsl : slot_ok st1 ow (t_id th) q ri).
+    { intros r' o Hn Ha. cbn in Hn. apply nth_error_upd_nth_inv in Hn.
+      destruct Hn as (r0 & Hn0 & [[_ ->]|[_ ->]]); eauto. }
+    assert (Hfr : frame (t_id th) st st1).
+    { intros ri2 r' t2 o Hne Hn Ha. cbn in Hn. apply nth_error_upd_nth_inv in Hn.
+      destruct Hn as (r0 & Hn0 & [[_ ->]|[_ ->]]); eauto. }
+    destruct (c_call cfg); inv Hstep; close; auto.
+    apply results_own_finish; [exact Hres|]. intros t Ht. inv Ht. cbn. split; congruence.
   - (* PRCacheOld *)
     destruct Hpc as [Hsrc Hslot].
     destruct (nth_error (rheap st) ri) as [r|] eqn:Er.
@@ -452,7 +458,7 @@ Proof.
   - destruct (loop_ends _ _ _ _ _); [destruct (tree_of _ _)|];
       inversion H; subst; clear H; rewrite ?program_finish; auto.
   - destruct (c_ow cfg); [| |destruct m]; inversion H; subst; clear H; auto.
-  - inversion H; subst; clear H; auto.
+  - destruct (c_call cfg); inversion H; subst; clear H; rewrite ?program_finish; auto.
   - destruct (nth_error _ _); [destruct (aget _ _); [destruct (score_lt _ _)|]|];
       inversion H; subst; clear H; rewrite ?program_finish; auto.
   - destruct (nth_error _ _); [destruct (aget _ _)|];
@@ -499,7 +505,7 @@ Qed.
 
 (* finding 8: AutoOptimizer(cache=False) as it stands, ONE thread, two queries:
    every trial of the second query scores worse than the best trial of the first *)
-Definition stale_cfg : config := mkC MAutoUncached OwFalse false 1.
+Definition stale_cfg : config := mkC MAutoUncached OwFalse false 1 false.
 Definition stale_orc : oracle :=
   mkO (fun q => q) (fun _ => true)
       (fun q o k => match q, k with
@@ -528,7 +534,7 @@ Qed.
 
 (* the hypothesis "distinct thread ids" is needed: two live threads with one id through one
    shared reusable optimizer can fetch each other's tree *)
-Definition dup_cfg : config := mkC MReusable OwFalse false 0.
+Definition dup_cfg : config := mkC MReusable OwFalse false 0 false.
 Definition dup_orc : oracle :=
   mkO (fun q => q) (fun _ => true) (fun _ _ _ => Some 1%Z) (fun _ _ _ => false) (fun _ => None).
 Theorem reusable_shared_tid_refuted :
